@@ -26,7 +26,54 @@ type windowInfo struct {
 	header  *ssa.BasicBlock
 	ctrArg  ssa.Value
 	ctrBase *Term
-	form    string // "plus" (c + conv(i)) or "split" (i<0 ? c - conv(-i) : c + conv(i))
+	form    string // "plus" (c + conv(i)) or "split" (i<0 ? c - conv(-i) : c + conv(i)) or "offset"
+	// offset form: i runs 0..2*s and the step counter is (centre - s) + i
+	sizeVal ssa.Value // the window size s when the loop bound is 2*s
+}
+
+// offsetForm recognises "for i := 0; i <= 2*s; i++ { … (centre - s) + i … }" and returns s and the centre.
+func offsetForm(tb *TB, wi *windowInfo) (size ssa.Value, centre *Term, ok bool) {
+	if wi.bound == nil || len(wi.ind.Inits) != 1 || !isConstInt(wi.ind.Inits[0], 0) || wi.ind.Step != 1 {
+		return nil, nil, false
+	}
+	b := stripConv(wi.bound)
+	bo, isB := b.(*ssa.BinOp)
+	if !isB {
+		return nil, nil, false
+	}
+	switch {
+	case bo.Op == token.MUL && isConstInt(bo.X, 2):
+		size = bo.Y
+	case bo.Op == token.MUL && isConstInt(bo.Y, 2):
+		size = bo.X
+	case bo.Op == token.ADD && tb.Of(bo.X).String() == tb.Of(bo.Y).String():
+		size = bo.X
+	case bo.Op == token.SHL && isConstInt(bo.Y, 1):
+		size = bo.X
+	default:
+		return nil, nil, false
+	}
+	st := tb.Of(size).String()
+	I := tb.Of(wi.I).String()
+	ct := tb.Of(wi.ctrArg)
+	// (centre - s) + i   in either operand order, conversions of s/i to the counter type allowed
+	strip := func(t *Term) *Term {
+		for t.Op == "conv" {
+			t = t.Args[0]
+		}
+		return t
+	}
+	if ct.Op != "bin" || ct.Sym != "+" {
+		return nil, nil, false
+	}
+	for k := 0; k < 2; k++ {
+		a, bb := ct.Args[k], ct.Args[1-k]
+		if strip(a).String() == I && bb.Op == "bin" && bb.Sym == "-" && strip(bb.Args[1]).String() == strip(tb.Of(size)).String() && !bb.Args[0].ContainsStr(I) {
+			_ = st
+			return size, bb.Args[0], true
+		}
+	}
+	return nil, nil, false
 }
 
 func stripConv(v ssa.Value) ssa.Value {
@@ -118,6 +165,24 @@ func checkWindow(c *Check, w *World, tb *TB, iv *IV, pfx string, wi *windowInfo,
 	f := wi.f
 	fn := FuncName(f)
 	hpos := w.InstrPos(wi.cond)
+	if size, centre, isOff := offsetForm(tb, wi); isOff && !needGuard {
+		// equivalent idiom: the window [centre-s, centre+s] walked upwards from its lower edge (mod 2^64)
+		op := wi.cond.Op
+		if wi.cond.Y == ssa.Value(wi.I) {
+			op = flipOp(op)
+		}
+		c.Decide(op == token.LEQ && wi.header.Succs[0].Dominates(wi.call.Block()), pfx+".2", fn, "window-loop", "one loop, i from 0 to 2s inclusive in steps of one over (centre - s) + i", "the offset-form window loop does not run while i <= 2s", hpos)
+		it := iv.At(stripConv(size), wi.header)
+		exact := it.Lo != nil && it.Hi != nil && it.Lo.Sign() == 0 && it.Hi.Cmp(bi(10)) == 0
+		c.Decide(exact, pfx+".1", fn, "window-gate", "the window size is within [0,10] at the loop (dominating gate), and nothing narrower", fmt.Sprintf("the window size is %s at the loop, expected exactly [0,10]", it), hpos)
+		wi.sizeVal = size
+		wi.ctrBase = centre
+		wi.form = "offset"
+		okB := wantBase == "" || centre.String() == wantBase || tb.Norm(centre).String() == wantBase
+		c.Decide(okB, pfx+".3", fn, "counter-argument", "step i validates counter (centre - s) + i, centre being the caller's counter / time step", "the window is centred on "+clip(normT(centre), 160)+", expected "+clip(wantBase, 160), w.InstrPos(wi.call))
+		checkAcceptGuard(c, w, tb, pfx, wi)
+		return
+	}
 	// --- .2 loop shape -----------------------------------------------------------------------
 	okLoop := true
 	why := ""
@@ -211,7 +276,7 @@ func checkWindow(c *Check, w *World, tb *TB, iv *IV, pfx string, wi *windowInfo,
 		}
 	} else {
 		wi.ctrBase = base
-		okB := wantBase == "" || base.String() == wantBase
+		okB := wantBase == "" || base.String() == wantBase || tb.Norm(base).String() == wantBase
 		c.Decide(okB, pfx+".3", fn, "counter-argument", "step i validates counter centre+i, centre being the caller's counter / time step", "the window is centred on "+clip(normT(base), 160)+", expected "+clip(wantBase, 160), w.InstrPos(wi.call))
 	}
 	// --- .4 underflow guard --------------------------------------------------------------------
@@ -261,6 +326,12 @@ func checkWindow(c *Check, w *World, tb *TB, iv *IV, pfx string, wi *windowInfo,
 			c.Bad(pfx+".4", fn, "underflow-guard", "steps below counter zero are not skipped: centre-(-i) wraps around to counters near 2^64", w.InstrPos(wi.call))
 		}
 	}
+	checkAcceptGuard(c, w, tb, pfx, wi)
+}
+
+func checkAcceptGuard(c *Check, w *World, tb *TB, pfx string, wi *windowInfo) {
+	f := wi.f
+	fn := FuncName(f)
 	// --- .5 accept guard -------------------------------------------------------------------------
 	nTrue := 0
 	for i, r := range Returns(f) {
